@@ -14,9 +14,14 @@ PATTERNS = [b"*", b"k*", b"k?", b"[kl]*", b"?", b"*1", b"k[1-2]", b"\\k1", b"mis
             b"*ab", b"*ssip*", b"a*b*b", b"*foo", b"*b\xffz", b"x*oo", b"*a?b", b"*[a-b]b",
             # literal-star-literal where the text after the star overlaps the tail of the text before it: a matcher that
             # lets the star give back characters the prefix already consumed reports FALSE POSITIVES (pattern needs more text than there is)
-            b"ab*bX", b"user:*:x", b"*sess*sion", b"aa*a", b"a*a", b"ab*ab", b"x?*?x", b"k*k1", b"[a]b*b"]
+            b"ab*bX", b"user:*:x", b"*sess*sion", b"aa*a", b"a*a", b"ab*ab", b"x?*?x", b"k*k1", b"[a]b*b",
+            # character classes at the edges of Redis's stringmatchlen: reversed range, escapes inside a class, a class that is
+            # not closed, `a-]` (a range up to `]`), the empty and the lone class
+            b"[c-a]", b"a[c-a]", b"[^c-a]*", b"[\\]]", b"[a\\]]", b"[\\\\]", b"[a\\-c]", b"[ab", b"a[a-b", b"[^a", b"[^", b"[", b"[]", b"[]a]",
+            b"[a-]", b"[a-]b]", b"[]-a]", b"*[b-a]", b"[\\", b"a[\\"]
 GLOB_KEYS = [b"aab", b"abab", b"mississippi", b"xfofoo", b"b\xff\xffz", b"axb",
-             b"abX", b"abbX", b"user:x", b"user::x", b"session", b"sesssion", b"aa", b"aaa", b"a", b"ab", b"abab", b"xax", b"xx", b"k1", b"kk1"]
+             b"abX", b"abbX", b"user:x", b"user::x", b"session", b"sesssion", b"aa", b"aaa", b"a", b"ab", b"abab", b"xax", b"xx", b"k1", b"kk1",
+             b"b", b"c", b"]", b"-", b"\\", b"[", b"a]", b"^", b"ac", b"`", b"_"]
 TTLS = [b"100", b"1000", b"100000"]
 
 
